@@ -27,8 +27,21 @@ pub struct Payload {
     pub capture: Arc<std::sync::atomic::AtomicBool>,
 }
 
+/// set when the context payload of the running case has been destroyed; every implementor of the
+/// family lives inside an object that carries the context, so none of them may be destroyed
+/// after that point (the context would not have outlived the object)
+static CTX_GONE: std::sync::atomic::AtomicBool = std::sync::atomic::AtomicBool::new(false);
+static OUTLIVED_CTX: AtomicU64 = AtomicU64::new(0);
+
+fn instance_dropped() {
+    if CTX_GONE.load(SeqCst) {
+        OUTLIVED_CTX.fetch_add(1, SeqCst);
+    }
+}
+
 impl Drop for Payload {
     fn drop(&mut self) {
+        CTX_GONE.store(true, SeqCst);
         if self.capture.load(SeqCst) {
             let _g = verifkit::alloc::Exempt::new();
             let bt = std::backtrace::Backtrace::force_capture().to_string();
@@ -142,6 +155,21 @@ impl MdX for LfI {
     }
 }
 cglue_impl_group!(LfI, LfRoGroup, { MdX });
+impl Drop for LfI {
+    fn drop(&mut self) {
+        instance_dropped();
+    }
+}
+impl Drop for MdI {
+    fn drop(&mut self) {
+        instance_dropped();
+    }
+}
+impl Drop for RtI {
+    fn drop(&mut self) {
+        instance_dropped();
+    }
+}
 
 pub struct MdI {
     t: HeapTok,
@@ -325,6 +353,18 @@ fn count_check(vc: &Ctx, arc: &Option<Arc<Payload>>, weak: &std::sync::Weak<Payl
 }
 
 fn body(vc: &Ctx, case: &Case) -> Result<St, Fail> {
+    CTX_GONE.store(false, SeqCst);
+    OUTLIVED_CTX.store(0, SeqCst);
+    let r = body_inner(vc, case);
+    let n = OUTLIVED_CTX.load(SeqCst);
+    CTX_GONE.store(false, SeqCst);
+    if r.is_ok() && n > 0 {
+        return Err(Fail::new("C07:instance-outlived-context", format!("{n} implementor values were destroyed after the context payload: an object released its context before its instance")));
+    }
+    r
+}
+
+fn body_inner(vc: &Ctx, case: &Case) -> Result<St, Fail> {
     let drop_site = Arc::new(Mutex::new(None));
     let capture = Arc::new(std::sync::atomic::AtomicBool::new(false));
     let mut arc = Some(Arc::new(Payload { tok: HeapTok::new(0xC7), drop_site: drop_site.clone(), capture: capture.clone() }));
@@ -654,6 +694,13 @@ fn body(vc: &Ctx, case: &Case) -> Result<St, Fail> {
             break;
         }
         count_check(vc, &arc, &weak, &pool, &st, &when)?;
+    }
+    // in half of the cases the harness gives up its own reference first: the object dropped last is
+    // then the last holder of the context, and its (implicit) destruction must release the context
+    // only after its instance is gone
+    if case.drop_order.len() % 2 == 1 && !pool.is_empty() && st.leak == 0 {
+        drop(arc.take());
+        st.derived += 1;
     }
     // final drops in a generated order
     let mut k = 0;
